@@ -12,6 +12,7 @@ CONSTANTS
   OverlapPer = 6
   Doubling = FALSE
   PairsFirstAll = TRUE
+  GridCols = 0
   GroupsExhaustive = TRUE
   Salt = 0
 INIT Init
